@@ -465,6 +465,7 @@ func (r *Router) RunHandlers(ctx context.Context) error {
 		if err != nil {
 			verifhook.At("router.life.rh.subscribe_failed", name)
 			cancel()
+			h.publisher, h.subscriber = h.undecoratedPublisher, h.undecoratedSubscriber
 			return errors.Wrapf(err, "cannot subscribe topic %s", h.subscribeTopic)
 		}
 
@@ -678,6 +679,9 @@ type handler struct {
 	subscriber     Subscriber
 	subscribeTopic string
 	subscriberName string
+	// the subscriber as it was before decorateHandlerSubscriber: put back, with the publisher, when Subscribe
+	// fails, so that a retried RunHandlers does not decorate them a second time
+	undecoratedSubscriber Subscriber
 
 	publisher     Publisher
 	publishTopic  string
@@ -811,6 +815,7 @@ func (r *Router) decorateHandlerPublisher(h *handler) error {
 func (r *Router) decorateHandlerSubscriber(h *handler) error {
 	var err error
 	sub := h.subscriber
+	h.undecoratedSubscriber = h.subscriber
 
 	// add values to message context to subscriber
 	// it goes before other decorators, so that they may take advantage of these values
